@@ -26,6 +26,9 @@ type Runner struct {
 	Out  [][]uint64 // values accepted on each external output, in order
 	Sent []int      // how many values of each input stream were accepted by the machine
 	Tick int
+	// LastText is what VM.Step returned for the last tick (the per-tick report: non-empty only when the
+	// simbox given to NewRunnerSB turns some show option on)
+	LastText string
 
 	inWait   []int
 	inActive []bool
@@ -64,6 +67,12 @@ func U64(x interface{}) uint64 {
 }
 
 func NewRunner(bm *bondmachine.Bondmachine, env Env, delays *simbox.SimDelays) (*Runner, error) {
+	return NewRunnerSB(bm, env, delays, new(simbox.Simbox))
+}
+
+// NewRunnerSB is NewRunner with the simbox the processors are launched with (processor-level show options:
+// config:show_pc, config:show_disasm, …) and from which the machine-level SimConfig is initialised.
+func NewRunnerSB(bm *bondmachine.Bondmachine, env Env, delays *simbox.SimDelays, sbox *simbox.Simbox) (*Runner, error) {
 	r := &Runner{BM: bm, Env: env}
 	vm := new(bondmachine.VM)
 	vm.Bmach = bm
@@ -73,7 +82,12 @@ func NewRunner(bm *bondmachine.Bondmachine, env Env, delays *simbox.SimDelays) (
 	}
 	r.VM = vm
 	r.sc = new(bondmachine.SimConfig)
-	if err := vm.Launch_processors(new(simbox.Simbox)); err != nil {
+	if len(sbox.Rules) > 0 {
+		if err := r.sc.Init(sbox, vm, new(bondmachine.Config)); err != nil {
+			return nil, err
+		}
+	}
+	if err := vm.Launch_processors(sbox); err != nil {
 		return nil, err
 	}
 	r.Out = make([][]uint64, bm.Outputs)
@@ -115,9 +129,11 @@ func (r *Runner) Step() error {
 			}
 		}
 	}
-	if _, err := vm.Step(r.sc); err != nil {
+	text, err := vm.Step(r.sc)
+	if err != nil {
 		return err
 	}
+	r.LastText = text
 	for o := 0; o < r.BM.Outputs; o++ {
 		if vm.OutputsValid[o] {
 			if !vm.OutputsRecv[o] {
